@@ -1,3 +1,4 @@
+From Coq Require Import Sorting.Mergesort Orders.
 From Corankco Require Import Prelude Rank Markov Judge.JC19.
 Local Open Scope Z_scope.
 
@@ -56,4 +57,33 @@ Definition judge_wrapper (c : nat * nat * Z * option dataset * bool * bool * boo
         else Nat.eqb (length D) m && cflag && tflag &&
              forallb (fun r => same_set (elems r) (seq 1 n) && nodupb (elems r) && Nat.eqb (length (elems r)) n) D
     end in
+  code true spec.
+
+(** Large universes (tens of thousands of elements: element ids no longer fit the narrow integer types a generator might use).  The
+    elements are written as binary integers; each delivered ranking must consist of non-empty buckets whose elements, sorted, are
+    exactly lo, lo+1, ..., lo+n-1 (a partition of the requested universe, complete), and there must be [m] of them. *)
+Module ZOrder <: TotalLeBool.
+  Definition t := Z.
+  Definition leb := Z.leb.
+  Theorem leb_total : forall a b, leb a b = true \/ leb b a = true.
+  Proof. intros a b. unfold leb. destruct (Z.leb_spec a b); [left; reflexivity|right; apply Z.leb_le; lia]. Qed.
+End ZOrder.
+Module ZSort := Sort ZOrder.
+
+(** a delivered ranking is written compactly: [inl (v, k)] stands for the k consecutive singleton buckets {v}, {v+1}, ..., {v+k-1};
+    [inr b] is the bucket b *)
+Fixpoint ziota (k : nat) (v : Z) : list Z := match k with O => [] | S k' => v :: ziota k' (v + 1) end.   (* v, v+1, ..., v+k-1 *)
+Definition expand_item (it : Z * Z + list Z) : list (list Z) :=
+  match it with
+  | inl (v, k) => map (fun x => [x]) (ziota (Z.to_nat k) v)
+  | inr b => [b]
+  end.
+
+Definition judge_big (c : Z * Z * nat * list (list (Z * Z + list Z))) : nat :=
+  let '(lo, n, m, rks) := c in
+  let expected := ziota (Z.to_nat n) lo in
+  let spec := Nat.eqb (length rks) m &&
+    forallb (fun items => let r := flat_map expand_item items in
+                          forallb (fun b => match b with [] => false | _ => true end) r
+                          && list_eqb Z.eqb (ZSort.sort (concat r)) expected) rks in
   code true spec.
